@@ -46,7 +46,7 @@ Fixpoint take_nat (n : nat) (bs : bytes) : option (bytes * bytes) :=
 (** Same with a binary count: iterates over the *list*, so a huge count on a
     short input stops at the end of the input. *)
 Fixpoint take_pos_aux (bs : bytes) (n : N) (acc : bytes) : option (bytes * bytes) :=
-  if n =? 0 then Some (rev acc, bs) else
+  if n =? 0 then Some (rev_append acc [], bs) else
   match bs with
   | [] => None
   | b :: r => take_pos_aux r (N.pred n) (b :: acc)
